@@ -208,10 +208,24 @@ def continuation_reads(stream, model, reqs, rng, res: dict, mech: str, n: int = 
                 break
 
 
+def flush_util_buffers() -> int:
+    import gc
+
+    from dissect.util.stream import AlignedStream
+
+    n = 0
+    for o in gc.get_objects():
+        if isinstance(o, AlignedStream) and getattr(o, "_buf", None) is not None:
+            o._buf = None
+            n += 1
+    return n
+
+
 def fault_retry_reads(stream, model, reqs, rng, res: dict, mech: str, n: int = 6) -> None:
-    """A transient I/O error in the middle of a read, then the same read again on the same object: the failed call
-    may raise anything, but whatever is returned - then or on the retry - is the right bytes (no half-updated cache
-    may survive the exception)."""
+    """A transient backend fault in the middle of a read (EIO, or a read that comes back empty / half as long), then the
+    same read again on the same object. Under EIO the failed call may raise anything, but whatever is returned - then
+    or on the retry - is the right bytes; after a short backend read only the retry is judged (the reader cannot
+    invent the missing bytes, but it must not keep what it made of them either)."""
     cnt = res.setdefault("cnt", {})
     viol = res.setdefault("viol", [])
     if model.size <= 0 or not reqs:
@@ -223,7 +237,17 @@ def fault_retry_reads(stream, model, reqs, rng, res: dict, mech: str, n: int = 6
         ln = max(1, min(ln, 300000))
         exp = model.expected(off, ln)
         fired0 = FAULT["fired"]
-        arm_fault(rng.choice([1, 1, 2, 2, 3, 4, 6]))
+        mode = rng.choice(["eio", "eio", "empty", "short"])
+        if rng.random() < 0.5:
+            # a successful read elsewhere first: there is an "earlier state" a failed update could leave behind
+            w_off, w_ln = rng.choice(reqs)
+            w_ln = max(1, min(w_ln, 70000))
+            warm = call(lambda: (stream.seek(w_off), stream.read(w_ln))[1])
+            if not warm.ok or warm.value != model.expected(w_off, w_ln):
+                viol.append({"what": "content mismatch" if warm.ok else f"exception on conformant input: {warm.brief()}", "mech": mech,
+                             "detail": mismatch_detail(w_off, w_ln, warm.value, model.expected(w_off, w_ln)) if warm.ok else {"tb": warm.tb}})
+                return
+        arm_fault(rng.choice([1, 1, 2, 2, 3, 4, 6]), mode)
         try:
             first = call(lambda: (stream.seek(off), stream.read(ln))[1])
         finally:
@@ -231,7 +255,9 @@ def fault_retry_reads(stream, model, reqs, rng, res: dict, mech: str, n: int = 6
         fired = FAULT["fired"] > fired0
         cnt["fault_injection_reads"] = cnt.get("fault_injection_reads", 0) + 1
         cnt["faults_fired"] = cnt.get("faults_fired", 0) + int(fired)
-        if first.ok and first.value != exp:
+        cnt[f"faults_{mode}"] = cnt.get(f"faults_{mode}", 0) + int(fired)
+        # after a short / empty backend read only the retry is judged
+        if (mode == "eio" or not fired) and first.ok and first.value != exp:
             d = mismatch_detail(off, ln, first.value, exp)
             d["fault_fired"] = fired
             viol.append({"what": "wrong bytes returned by a read during which a backend read failed" if fired else "content mismatch", "mech": mech, "detail": d})
@@ -239,6 +265,10 @@ def fault_retry_reads(stream, model, reqs, rng, res: dict, mech: str, n: int = 6
         if not first.ok and not fired:
             viol.append({"what": f"exception on conformant input: {first.brief()}", "mech": mech, "detail": {"offset": off, "length": ln, "tb": first.tb}})
             return
+        if mode != "eio" and fired:
+            # dissect.util's AlignedStream (not part of the repository) keeps the last aligned block it was handed, short
+            # or not; drop those buffers so that the retry shows what the repository's own caches kept
+            flush_util_buffers()
         # retry (and a neighbouring read that shares tables with it)
         for o2, l2 in ((off, ln), (max(0, off - 4096), min(ln + 8192, 300000))):
             e2 = model.expected(o2, l2)
